@@ -122,7 +122,7 @@ def r04_4(ctx):
 
 
 # the accepted spellings of "modifiers were written and are not empty" (None -> false in each) and of "the argument, or `void 0`"
-NONEMPTY_MODS = re.compile(r"modifiers\.map\(\|(\w+)\| !\1\.is_empty\(\)\)\.unwrap_or_default\(\)|modifiers\.is_some_and\(\|(\w+)\| !\2\.is_empty\(\)\)"
+NONEMPTY_MODS = re.compile(r"modifiers\.map\(\|(\w+)\| !\1\.is_empty\(\)\)\.(?:unwrap_or_default\(\)|unwrap_or\(False\))|modifiers\.is_some_and\(\|(\w+)\| !\2\.is_empty\(\)\)"
                            r"|modifiers\.map_or\(False, \|(\w+)\| !\3\.is_empty\(\)\)|match modifiers \{Some\((\w+)\) => !\4\.is_empty\(\) \| None(\(\))? => False\}"
                            r"|match modifiers \{None(\(\))? => False \| Some\((\w+)\) => !\7\.is_empty\(\)\}")
 VOID_FILL = re.compile(r"argument\.or_else\(\|\| Some\(VOID0\)\)|argument\.or\(Some\(VOID0\)\)|Some\(argument\.unwrap_or_else\(\|\| VOID0\)\)|Some\(argument\.unwrap_or\(VOID0\)\)")
@@ -161,6 +161,16 @@ def r04_5(ctx):
                     fs = {f["name"]: expr_str(f["e"]) for f in n["fields"]}
                     fld = "argument" if n["adt"].endswith("NormalDirective") else "transformed_argument"
                     a = fs.get(fld, "")
+                    # a condition that was given a name (`let has_modifiers = ..;`) is read through
+                    fe = {f["name"]: f["e"] for f in n["fields"]}.get(fld)
+                    if fe is not None:
+                        from .hirflow import HirIndex
+                        idxb = HirIndex(b)
+                        for x in walk(fe):
+                            if x.get("k") == "Path" and x["res"].get("r") == "local" and (x.get("ty") or "") == "bool":
+                                bd = idxb.binding.get(x["res"]["id"])
+                                if bd and bd.get("kind") == "let" and bd.get("init") is not None and not bd.get("path"):
+                                    a = re.sub(r"\b%s\b" % re.escape(x["res"]["name"]), expr_str(bd["init"]).replace("\\", "\\\\"), a)
                     a = _void0_texts(ctx).sub("VOID0", a)
                     und = C.role(ctx, "undefined_fn")
                     if und is not None and _void0_texts(ctx).fullmatch(expr_str(und["body"])):
